@@ -569,6 +569,58 @@ pub proof fn lemma_decode_of_encode(v: nat, rest: Seq<u8>)
         }
 //@ end
 
+/// value of a k-byte signed LEB128 string: the unsigned group sum, minus 128^k when the sign bit (0x40 of the last group) is set
+pub open spec fn svalk(s: Seq<u8>, k: nat) -> int {
+    if k >= 1 && s[k - 1] as nat % 128 >= 64 { valk(s, k) as int - p128(k) as int } else { valk(s, k) as int }
+}
+/// sign extension step: OR-ing `-1 << s` onto a non-negative value below 2^s subtracts 2^s
+pub proof fn lemma_sign_extend(res: i64, s: u32)
+    requires 7 <= s <= 63, 0 <= res, (res as u64) < (1u64 << (s as u64)),
+    ensures (res | (-1i64 << s)) as int == res as int - (1u64 << (s as u64)) as int,
+{
+    assert((res | (-1i64 << s)) as int == res as int - (1u64 << (s as u64)) as int) by (bit_vector)
+        requires 7 <= s <= 63, 0 <= res, (res as u64) < (1u64 << (s as u64));
+}
+/// one decoding step on i64 (groups 1..9): same as the unsigned step, the accumulator stays non-negative
+pub proof fn lemma_or_add_i(res: i64, b: u8, s: u32)
+    requires s <= 56, 0 <= res, (res as u64) < (1u64 << (s as u64)),
+    ensures (res | (((b & 0x7F) as i64) << s)) as int == res as int + ((b & 0x7F) as int) * (1u64 << (s as u64)) as int,
+        0 <= (res | (((b & 0x7F) as i64) << s)),
+        ((res | (((b & 0x7F) as i64) << s)) as u64) < (1u64 << ((s + 7) as u64)),
+{
+    assert((res | (((b & 0x7F) as i64) << s)) as u64 == (res as u64) + ((b & 0x7F) as u64) * (1u64 << (s as u64))) by (bit_vector) requires s <= 56, 0 <= res, (res as u64) < (1u64 << (s as u64));
+    assert(0 <= (res | (((b & 0x7F) as i64) << s))) by (bit_vector) requires s <= 56, 0 <= res, (res as u64) < (1u64 << (s as u64));
+    assert(((res | (((b & 0x7F) as i64) << s)) as u64) < (1u64 << ((s + 7) as u64))) by (bit_vector) requires s <= 56, 0 <= res, (res as u64) < (1u64 << (s as u64));
+}
+
+/// the tenth signed group: 0x7f lands on the sign bit
+pub proof fn lemma_or_top_i(res: i64, b: u8)
+    requires 0 <= res, b == 0 || b == 0x7f,
+    ensures b == 0 ==> (res | (((b & 0x7F) as i64) << 63u32)) == res,
+        b == 0x7f ==> (res | (((b & 0x7F) as i64) << 63u32)) as int == res as int - 0x8000_0000_0000_0000int,
+{
+    assert(b == 0 ==> (res | (((b & 0x7F) as i64) << 63u32)) == res) by (bit_vector);
+    assert(b == 0x7f ==> (res | (((b & 0x7F) as i64) << 63u32)) as int == res as int - 0x8000_0000_0000_0000int) by (bit_vector) requires 0 <= res;
+}
+pub proof fn lemma_svalk_top(s: Seq<u8>, res_old: nat)
+    requires s.len() >= 10, s[9] == 0 || s[9] == 0x7f, res_old == valk(s, 9), res_old < p128(9),
+    ensures s[9] == 0 ==> svalk(s, 10) == res_old as int,
+        s[9] == 0x7f ==> svalk(s, 10) == res_old as int - 0x8000_0000_0000_0000int,
+{
+    lemma_p128_shift(9);
+    assert((1u64 << 63u64) == 0x8000_0000_0000_0000u64) by (bit_vector);
+    assert(p128(9) == 0x8000_0000_0000_0000nat);
+    assert(p128(10) == 128 * p128(9));
+    assert(valk(s, 10) == valk(s, 9) + (s[9] as nat % 128) * p128(9));
+    if s[9] == 0x7f {
+        assert(s[9] as nat % 128 == 127);
+        assert(127 * p128(9) == 127 * 0x8000_0000_0000_0000nat);
+    } else {
+        assert(s[9] as nat % 128 == 0);
+        assert(0 * p128(9) == 0);
+    }
+}
+
 //@ fn rust/automerge/src/storage/parse/leb128.rs | leb128_i64
 //@   ret r
 //@   attr #[verifier::loop_isolation(false)]
@@ -576,33 +628,52 @@ pub proof fn lemma_decode_of_encode(v: nat, rest: Seq<u8>)
     requires input.wf(),
     ensures
         r matches Ok((i, v)) ==> ({ let k = i.position - input.position; 1 <= k <= 10 && input.advanced(i, k)
-            && all_cont(input.bytes@, k - 1) && input.bytes[k - 1] < 0x80 && i.wf() && (input.aligned() ==> i.aligned()) }),
+            && all_cont(input.bytes@, k - 1) && input.bytes[k - 1] < 0x80 && i.wf() && (input.aligned() ==> i.aligned())
+            // value: the 7-bit groups, little end first, sign-extended from bit 6 of the last group
+            && v as int == svalk(input.bytes@, k as nat) }),
         (r matches Err(ParseError::Incomplete(_))) <==> (input.bytes.len() < 10 && all_cont(input.bytes@, input.bytes.len() as int)),
 //@   before /^    loop \{$/
     let ghost orig = input;
     let ghost mut k: int = 0;
-    proof { assert(orig.bytes@.subrange(0, orig.bytes.len() as int) =~= orig.bytes@); }
+    proof { assert(orig.bytes@.subrange(0, orig.bytes.len() as int) =~= orig.bytes@); lemma_p128_shift(0); }
 //@   loop 1
         invariant
             0 <= k <= 9, shift == 7 * k, orig.wf(), input.wf(),
             orig.advanced(input, k), all_cont(orig.bytes@, k),
             orig.aligned() ==> input.aligned(),
+            0 <= res, res as nat == valk(orig.bytes@, k as nat), (res as nat) < p128(k as nat),
         decreases 10 - k,
 //@   before /let \(i, byte\) = take1\(input\)\?;/
         proof { assert(input.bytes.len() == orig.bytes.len() - k); }
+        let ghost res_old = res;
 //@   after /input = i;/
         proof {
             assert(byte == orig.bytes[k]);
             assert(input.bytes@ =~= orig.bytes@.subrange(k + 1, orig.bytes.len() as int));
             assert(byte & 0x7F <= 0x7f) by (bit_vector);
             assert((byte & 0x80) == 0 <==> byte < 0x80) by (bit_vector);
+            assert((byte & 0x7F) == byte % 128) by (bit_vector);
+            assert((byte & 0x40 > 0) <==> (byte % 128 >= 64)) by (bit_vector);
+            lemma_p128_shift(k as nat);
+            if k <= 8 { lemma_or_add_i(res, byte, shift as u32); }
         }
 //@   after /shift \+= 7;/
         proof {
+            if k <= 8 {
+                assert(res as nat == res_old as nat + (byte as nat % 128) * p128(k as nat));
+                lemma_step(orig.bytes@, k as nat, res_old as nat, res as nat, byte);
+            }
             k = k + 1;
             assert(orig.bytes@[k - 1] == byte); assert(orig.advanced(input, k)); assert(all_cont(orig.bytes@, k - 1));
             assert((byte & 0x80) == 0 ==> orig.bytes[k - 1] < 0x80);
+            if k <= 9 { lemma_p128_shift(k as nat); }
+            if k == 10 && (byte == 0 || byte == 0x7f) {
+                lemma_or_top_i(res_old, byte);
+                lemma_svalk_top(orig.bytes@, res_old as nat);
+            }
         }
+//@   before /^                res \|= -1 << shift;$/
+                proof { lemma_sign_extend(res, shift as u32); }
 //@ end
 
 //@ fn rust/automerge/src/storage/parse/leb128.rs | leb128_u32
